@@ -19,6 +19,16 @@ def roll_mux(window, stride):
             state_n = None
             state_w = None
 
+            def _open_windows(i):
+                # (index of the first item, slot index) of each open window
+                windows = []
+                for offset in range(density):
+                    index = i.key[0] * density + offset
+                    w_value = i.store.get_state(state_w, (index, i.key))
+                    if w_value != -1:
+                        windows.append((w_value, index))
+                return windows
+
             def on_next(i):
                 nonlocal state_n
                 nonlocal state_w
@@ -52,20 +62,17 @@ def roll_mux(window, stride):
                 elif isinstance(i, rs.OnCompletedMux):                    
                     kindex = i.key[0]
                     i.store.set_state(state_n, (kindex, i.key), 0)
-                    for offset in range(density):
-                        index = i.key[0] * density + offset
-                        if i.store.get_state(state_w, (index, i.key)) != -1:
-                            observer.on_next(i._replace(key=(index, i.key)))
-                            i.store.set_state(state_w, (index, i.key), -1)
+                    # close the remaining windows in the order they were opened
+                    for _, index in sorted(_open_windows(i)):
+                        observer.on_next(i._replace(key=(index, i.key)))
+                        i.store.set_state(state_w, (index, i.key), -1)
                     outer_observer.on_next(i)
                 elif isinstance(i, rs.OnErrorMux):
                     kindex = i.key[0]
                     i.store.set_state(state_n, (kindex, i.key), 0)
-                    for offset in range(density):
-                        index = i.key[0] * density + offset
-                        if i.store.get_state(state_w, (index, i.key)) != -1:
-                            observer.on_next(i._replace(key=(index, i.key)))
-                            i.store.set_state(state_w, (index, i.key), -1)
+                    for _, index in sorted(_open_windows(i)):
+                        observer.on_next(i._replace(key=(index, i.key)))
+                        i.store.set_state(state_w, (index, i.key), -1)
                     outer_observer.on_next(i)
                 elif type(i) is rs.state.ProbeStateTopology:
                     state_n = i.topology.create_state(name="roll", data_type='uint', default_value=0)
